@@ -3,6 +3,7 @@ package main
 // Heap objects, loads/stores through guarded pointers, slices and strings.
 
 import (
+	"fmt"
 	"go/types"
 )
 
@@ -227,13 +228,14 @@ func (ex *Exec) loadPath(v Value, path []PathEl) Value {
 	if n == 0 {
 		return nil
 	}
+	rest := path[1:]
 	if el.idx.IsConst() {
 		k := int(el.idx.val)
 		if el.idx.val >= uint64(n) {
 			// out of range under an infeasible guard; return element 0
 			k = 0
 		}
-		return ex.loadPath(a.e[k], path[1:])
+		return ex.loadPath(ex.cell(a, k), rest)
 	}
 	if ex.tb.isCTree(el.idx) {
 		var res Value
@@ -242,7 +244,7 @@ func (ex *Exec) loadPath(v Value, path []PathEl) Value {
 			if k >= uint64(n) {
 				return
 			}
-			x := ex.loadPath(a.e[kk], path[1:])
+			x := ex.loadPath(ex.cell(a, kk), rest)
 			if res == nil {
 				res = x
 			} else {
@@ -250,7 +252,7 @@ func (ex *Exec) loadPath(v Value, path []PathEl) Value {
 			}
 		})
 		if res == nil {
-			res = ex.loadPath(a.e[0], path[1:])
+			res = ex.loadPath(ex.cell(a, 0), rest)
 		}
 		return res
 	}
@@ -263,11 +265,36 @@ func (ex *Exec) loadPath(v Value, path []PathEl) Value {
 			lo = int(b.lo)
 		}
 	}
-	res := ex.loadPath(a.e[hi], path[1:])
+	res := ex.loadPath(ex.cell(a, hi), rest)
 	for k := hi - 1; k >= lo; k-- {
-		res = ex.merge(ex.idxEq(el.idx, k), ex.loadPath(a.e[k], path[1:]), res)
+		res = ex.merge(ex.idxEq(el.idx, k), ex.loadPath(ex.cell(a, k), rest), res)
 	}
 	return res
+}
+
+// cell returns element k of a with the store log folded in.
+func (ex *Exec) cell(a *ArrayV, k int) Value {
+	v := a.e[k]
+	for _, ev := range a.log {
+		c := ex.tb.And(ev.g, ex.idxEq(ev.idx, k))
+		if c.IsFalse() {
+			continue
+		}
+		v = ex.storePath(v, ev.rest, ev.val, c)
+	}
+	return v
+}
+
+// flatten materialises the store log.
+func (ex *Exec) flatten(a *ArrayV) *ArrayV {
+	if len(a.log) == 0 {
+		return a
+	}
+	e := make([]Value, len(a.e))
+	for k := range e {
+		e[k] = ex.cell(a, k)
+	}
+	return &ArrayV{e: e}
 }
 
 // forLeaves enumerates the constant leaves of a constant tree with their guards.
@@ -301,16 +328,16 @@ func (ex *Exec) storePath(v Value, path []PathEl, nv Value, g *Term) Value {
 		unsup("index path into %T", v)
 	}
 	n := len(a.e)
-	e := make([]Value, n)
-	copy(e, a.e)
-	if el.idx.IsConst() {
-		if el.idx.val < uint64(n) {
-			k := int(el.idx.val)
-			e[k] = ex.storePath(a.e[k], path[1:], nv, g)
+	if len(a.log) == 0 && (el.idx.IsConst() || (ex.tb.isCTree(el.idx) && el.idx.nleaf <= 4)) {
+		e := make([]Value, n)
+		copy(e, a.e)
+		if el.idx.IsConst() {
+			if el.idx.val < uint64(n) {
+				k := int(el.idx.val)
+				e[k] = ex.storePath(a.e[k], path[1:], nv, g)
+			}
+			return &ArrayV{e: e}
 		}
-		return &ArrayV{e: e}
-	}
-	if ex.tb.isCTree(el.idx) {
 		ex.forLeaves(el.idx, g, func(gg *Term, k uint64) {
 			if k < uint64(n) {
 				e[k] = ex.storePath(e[k], path[1:], nv, gg)
@@ -318,29 +345,39 @@ func (ex *Exec) storePath(v Value, path []PathEl, nv Value, g *Term) Value {
 		})
 		return &ArrayV{e: e}
 	}
-	lo, hi := 0, n-1
-	if b, ok := ex.tb.boundsOf(el.idx); ok {
-		if b.hi < uint64(hi) {
-			hi = int(b.hi)
-		}
-		if b.lo > uint64(lo) && b.lo <= uint64(hi) {
-			lo = int(b.lo)
-		}
+	if len(a.log) >= 96 {
+		a = ex.flatten(a)
 	}
-	for k := lo; k <= hi; k++ {
-		e[k] = ex.storePath(a.e[k], path[1:], nv, ex.tb.And(g, ex.idxEq(el.idx, k)))
-	}
-	return &ArrayV{e: e}
+	// symbolic index (or a store on top of logged stores): append to the log
+	log := append(a.log[:len(a.log):len(a.log)], wevent{g: g, idx: el.idx, rest: path[1:], val: nv})
+	return &ArrayV{e: a.e, log: log}
 }
 
 // load dereferences p. Nil alternatives raise a VC.
 func (ex *Exec) load(st *State, p *PtrV, site string) Value {
 	var res Value
-	var nilG []*Term
+	hasNil := false
+	for _, a := range p.alts {
+		if a.obj == 0 {
+			hasNil = true
+		}
+	}
+	if hasNil {
+		var nilG []*Term
+		for _, a := range ex.eff(p) {
+			if a.obj == 0 {
+				nilG = append(nilG, a.g)
+			}
+		}
+		ex.vc(st, "panic", site+": nil dereference", ex.tb.Or(nilG...))
+		if st.dead {
+			return nil
+		}
+	}
+	// priority semantics: build the nested ite from the last alternative up
 	for i := len(p.alts) - 1; i >= 0; i-- {
 		a := p.alts[i]
 		if a.obj == 0 {
-			nilG = append(nilG, a.g)
 			continue
 		}
 		x := ex.loadPath(ex.obj(st, a.obj).v, a.path)
@@ -350,15 +387,12 @@ func (ex *Exec) load(st *State, p *PtrV, site string) Value {
 			res = ex.merge(a.g, x, res)
 		}
 	}
-	if len(nilG) > 0 {
-		ex.vc(st, "panic", site+": nil dereference", ex.tb.Or(nilG...))
-	}
 	return res
 }
 
 func (ex *Exec) store(st *State, p *PtrV, v Value, site string) {
 	var nilG []*Term
-	for _, a := range p.alts {
+	for _, a := range ex.eff(p) {
 		if a.obj == 0 {
 			nilG = append(nilG, a.g)
 		}
@@ -369,7 +403,7 @@ func (ex *Exec) store(st *State, p *PtrV, v Value, site string) {
 			return
 		}
 	}
-	for _, a := range p.alts {
+	for _, a := range ex.eff(p) {
 		if a.obj == 0 {
 			continue
 		}
@@ -654,7 +688,15 @@ func (ex *Exec) sliceOp(st *State, s *SliceV, lo, hi, max *Term, site string) *S
 		}
 	}
 	for _, a := range s.alts {
-		r.alts = append(r.alts, SAlt{g: a.g, obj: a.obj, off: tb.Add(a.off, lo)})
+		na := SAlt{g: a.g, obj: a.obj, off: tb.Add(a.off, lo)}
+		if a.cp != nil && !s.str {
+			if max != nil {
+				na.cp = tb.Sub(max, lo)
+			} else {
+				na.cp = tb.Sub(a.cp, lo)
+			}
+		}
+		r.alts = append(r.alts, na)
 	}
 	return r
 }
@@ -680,88 +722,135 @@ func (ex *Exec) appendOp(st *State, s, t *SliceV, elem types.Type, site string) 
 			add[i] = zero
 		}
 	}
-	inplace := ex.simp(st, tb.Sle(newLen, s.cp))
-	if s.cp == s.ln {
-		inplace = tb.False
-	}
-	if !inplace.IsConst() {
-		// decide by ranges, then by the solver (pure pruning)
-		bn, ok1 := tb.boundsOf(newLen)
-		bc, ok2 := tb.boundsOf(s.cp)
-		if ok1 && ok2 && bn.hi <= bc.lo {
-			inplace = tb.True
-		} else if ok1 && ok2 && bn.lo > bc.hi {
-			inplace = tb.False
-		} else if ex.feasBranches {
-			pc := ex.pcTerm(st)
-			if ex.solver.CheckQuick(ex.feasMs, pc, tb.Not(inplace)) == "unsat" {
-				inplace = tb.True
-			} else if ex.solver.CheckQuick(ex.feasMs, pc, inplace) == "unsat" {
-				inplace = tb.False
-			}
-		}
-	}
+	bn, okn := tb.boundsOf(newLen)
 	res := &SliceV{ln: newLen}
-	if !inplace.IsFalse() {
-		// in-place stores under guard
-		for i := 0; i < kmax; i++ {
-			g := tb.And(inplace, tb.Slt(ex.i64(i), k))
-			if g.IsFalse() {
-				continue
-			}
-			ex.sliceStore(st, s, tb.Add(n, ex.i64(i)), add[i], g, site)
+	var grow []SAlt
+	pcT := (*Term)(nil)
+	for _, a := range s.alts {
+		capA := s.altCap(a)
+		inplace := ex.simp(st, tb.Sle(newLen, capA))
+		if capA == s.ln && len(s.alts) == 1 {
+			inplace = tb.False
 		}
-		for _, a := range s.alts {
-			res.alts = append(res.alts, SAlt{g: tb.And(a.g, inplace), obj: a.obj, off: a.off})
-		}
-	}
-	if inplace.IsTrue() {
-		res.cp = s.cp
-		return res
-	}
-	// growth: fresh backing array of capacity exactly newLen
-	cnt := ex.umaxLen(st, newLen, site)
-	elems := make([]Value, cnt)
-	nmax := ex.umaxLen(st, n, site)
-	for j := 0; j < cnt; j++ {
-		var v Value = zero
-		// appended part: j-n in [0,k)
-		if n.IsConst() {
-			i := j - int(n.val)
-			if i >= 0 && i < kmax {
-				v = ex.merge(tb.Slt(ex.i64(i), k), add[i], zero)
+		if !inplace.IsConst() {
+			bc, okc := tb.boundsOf(capA)
+			if okn && okc && bn.hi <= bc.lo {
+				inplace = tb.True
+			} else if okn && okc && bn.lo > bc.hi {
+				inplace = tb.False
+			} else if ex.feasBranches {
+				if pcT == nil {
+					pcT = ex.pcTerm(st)
+				}
+				if ex.solver.CheckQuick(ex.feasMs, pcT, a.g, tb.Not(inplace)) == "unsat" {
+					inplace = tb.True
+				} else if ex.solver.CheckQuick(ex.feasMs, pcT, a.g, inplace) == "unsat" {
+					inplace = tb.False
+				}
 			}
-		} else {
-			for i := 0; i < kmax && i <= j; i++ {
-				// j == n+i
-				if j-i > nmax {
+		}
+		if debugVC {
+			fmt.Printf("APPEND %s: alt obj=%d inplace const=%v true=%v bn=%v\n", site, a.obj, inplace.IsConst(), inplace.IsTrue(), bn)
+		}
+		if a.obj == 0 {
+			inplace = tb.False
+		}
+		if !inplace.IsFalse() {
+			ga := tb.And(a.g, inplace)
+			for i := 0; i < kmax; i++ {
+				g := tb.And(ga, tb.Slt(ex.i64(i), k))
+				if g.IsFalse() {
 					continue
 				}
-				g := tb.And(tb.Eq(n, ex.i64(j-i)), tb.Slt(ex.i64(i), k))
-				v = ex.merge(g, add[i], v)
+				ex.storeObj(st, a.obj, []PathEl{{idx: tb.Add(a.off, tb.Add(n, ex.i64(i)))}}, add[i], g, site)
 			}
+			res.alts = append(res.alts, SAlt{g: ga, obj: a.obj, off: a.off, cp: capA})
 		}
-		if j < nmax {
-			in := tb.Slt(ex.i64(j), n)
-			if !in.IsFalse() {
-				old := ex.sliceLoad(st, s, ex.i64(j))
-				if old != nil {
-					v = ex.merge(in, old, v)
+		if !inplace.IsTrue() {
+			grow = append(grow, SAlt{g: tb.And(a.g, tb.Not(inplace)), obj: a.obj, off: a.off})
+		}
+	}
+	if len(grow) == 0 {
+		res.cp = ex.sliceCap(res)
+		return res
+	}
+	// growth: one fresh backing array for all alternatives that do not fit.
+	// Go leaves the capacity after growth to the implementation (>= new
+	// length); the model over-allocates to a constant so that the following
+	// appends of an accumulator are in place and decided by ranges.
+	var gs []*Term
+	for _, a := range grow {
+		gs = append(gs, a.g)
+	}
+	growG := tb.Or(gs...)
+	cnt := ex.umaxLen(st, newLen, site)
+	capNew := 2 * cnt
+	if capNew < ex.Kgrow {
+		capNew = ex.Kgrow
+	}
+	if capNew > ex.Kalloc && cnt <= ex.Kalloc {
+		capNew = ex.Kalloc
+	}
+	src := &SliceV{alts: grow, ln: n}
+	elems := make([]Value, capNew)
+	nmax := ex.umaxLen(st, n, site)
+	for j := 0; j < capNew; j++ {
+		var v Value = zero
+		if j < cnt {
+			if n.IsConst() {
+				i := j - int(n.val)
+				if i >= 0 && i < kmax {
+					v = ex.merge(tb.Slt(ex.i64(i), k), add[i], zero)
+				}
+			} else {
+				for i := 0; i < kmax && i <= j; i++ {
+					if j-i > nmax {
+						continue
+					}
+					g := tb.And(tb.Eq(n, ex.i64(j-i)), tb.Slt(ex.i64(i), k))
+					v = ex.merge(g, add[i], v)
+				}
+			}
+			if j < nmax {
+				in := tb.Slt(ex.i64(j), n)
+				if !in.IsFalse() {
+					old := ex.sliceLoad(st, src, ex.i64(j))
+					if old != nil {
+						v = ex.merge(in, old, v)
+					}
 				}
 			}
 		}
 		elems[j] = v
 	}
 	id := ex.newArrayObj(st, elem, elems, false)
-	ex.addAlloc(st, tb.Ite(inplace, ex.i64(0), tb.Mul(newLen, ex.i64(int(ex.sizeof(elem))))))
-	ng := tb.Not(inplace)
-	res.alts = append(res.alts, SAlt{g: ng, obj: id, off: ex.i64(0)})
-	if inplace.IsFalse() {
-		res.cp = newLen
-	} else {
-		res.cp = tb.Ite(inplace, s.cp, newLen)
-	}
+	// the allocation counter charges twice the new length (amortised doubling
+	// of the real runtime), not the model's constant slack
+	capT := ex.i64(capNew)
+	ex.addAlloc(st, tb.Ite(growG, tb.Mul(newLen, ex.i64(2*int(ex.sizeof(elem)))), ex.i64(0)))
+	res.alts = append(res.alts, SAlt{g: growG, obj: id, off: ex.i64(0), cp: capT})
+	res.cp = ex.sliceCap(res)
 	return res
+}
+
+// sliceCap computes the capacity term of a slice from its alternatives.
+func (ex *Exec) sliceCap(s *SliceV) *Term {
+	var r *Term
+	for i := len(s.alts) - 1; i >= 0; i-- {
+		c := s.alts[i].cp
+		if c == nil {
+			c = ex.i64(0)
+		}
+		if r == nil {
+			r = c
+		} else {
+			r = ex.tb.Ite(s.alts[i].g, c, r)
+		}
+	}
+	if r == nil {
+		r = ex.i64(0)
+	}
+	return r
 }
 
 // copyOp implements copy(dst, src) and returns the number of elements copied.
